@@ -7,6 +7,7 @@ from fickling.ml import FicklingMLUnpickler
 
 _original_pickle_load = pickle.load
 _original_pickle_loads = pickle.loads
+_original_pickle_unpickler = pickle.Unpickler
 
 
 def run_hook():
@@ -30,10 +31,19 @@ def activate_safe_ml_environment(also_allow=None):
     def new_loads(data, *args, **kwargs):
         return FicklingMLUnpickler(io.BytesIO(data), also_allow=also_allow, **kwargs).load(*args)
 
+    class SafeMLUnpickler(FicklingMLUnpickler):
+        """What `pickle.Unpickler` names while the environment is active: code that builds its own
+        unpickler from it (torch.load subclasses `pickle_module.Unpickler` for the payload object of
+        legacy and zip containers) gets the allowlist-enforcing find_class as well"""
+
+        def __init__(self, *args, **kwargs):
+            super().__init__(*args, also_allow=also_allow, **kwargs)
+
     pickle.load = new_load
     _pickle.load = new_load
     pickle.loads = new_loads
     _pickle.loads = new_loads
+    pickle.Unpickler = SafeMLUnpickler
 
 
 def remove_hook():
@@ -41,6 +51,7 @@ def remove_hook():
     _pickle.load = _original_pickle_load
     pickle.loads = _original_pickle_loads
     _pickle.loads = _original_pickle_loads
+    pickle.Unpickler = _original_pickle_unpickler
 
 
 # Alias
